@@ -26,7 +26,7 @@ type bbProbe struct {
 	Split    int    `json:"split,omitempty"`
 }
 
-var bbFrontends = []string{"sasl", "sasl-split", "sasl-split", "sasl-split", "basic-auth", "api-authenticate", "ldap", "cli", "https-basic-auth", "ldaps"}
+var bbFrontends = []string{"sasl", "sasl-split", "sasl-split", "sasl-split", "basic-auth", "api-authenticate", "ldap", "cli", "https-basic-auth", "ldaps", "ldap-starttls"}
 
 func genBBPassword(t *rapid.T) string {
 	switch rapid.IntRange(0, 9).Draw(t, "pwcls") {
@@ -74,7 +74,8 @@ func genBBCase(t *rapid.T) bbCase {
 	}
 	c.Users = us
 	c.Listeners = rapid.SampledFrom([][]string{{"sasl", "http", "ldap"}, {"sasl", "http", "ldap"}, {"sasl"}, {"http"}, {"ldap"}, {"sasl", "http"}, {"http", "ldap"}, {"sasl", "ldap"},
-		{"sasl", "http", "ldap", "https", "ldaps"}, {"https", "ldaps"}, {"sasl", "https"}, {"http", "https", "ldap", "ldaps"}}).Draw(t, "listeners")
+		{"sasl", "http", "ldap", "https", "ldaps"}, {"https", "ldaps"}, {"sasl", "https"}, {"http", "https", "ldap", "ldaps"},
+		{"sasl", "http", "ldaptls"}, {"ldaptls", "ldaps"}, {"ldaptls"}}).Draw(t, "listeners")
 	for i, n := 0, rapid.IntRange(3, 14).Draw(t, "nprobes"); i < n; i++ {
 		u := c.Users[rapid.IntRange(0, len(c.Users)-1).Draw(t, "u")]
 		p := bbProbe{User: u.Name, PW: u.PW, Kind: "right", Frontend: rapid.SampledFrom(bbFrontends).Draw(t, "frontend"),
@@ -136,7 +137,9 @@ func doProbe(a *agent, cfgFile string, listeners []string, p bbProbe) (fe, name,
 		fe = "cli"
 	case (fe == "basic-auth" || fe == "api-authenticate") && !has(listeners, "http"):
 		fe = "cli"
-	case fe == "ldap" && !has(listeners, "ldap"):
+	case fe == "ldap" && !has(listeners, "ldap") && !has(listeners, "ldaptls"):
+		fe = "cli"
+	case fe == "ldap-starttls" && !has(listeners, "ldaptls"):
 		fe = "cli"
 	case fe == "https-basic-auth" && !has(listeners, "https"):
 		fe = "cli"
@@ -156,7 +159,7 @@ func doProbe(a *agent, cfgFile string, listeners []string, p bbProbe) (fe, name,
 		return
 	}
 	name, storeName = p.User, p.User
-	if fe == "ldap" || fe == "ldaps" {
+	if fe == "ldap" || fe == "ldaps" || fe == "ldap-starttls" {
 		name = p.User + p.Realm
 		storeName, _, _ = strings.Cut(name, "@")
 	}
@@ -191,6 +194,8 @@ func doProbe(a *agent, cfgFile string, listeners []string, p bbProbe) (fe, name,
 		detail = fmt.Sprint(st)
 	case "ldaps":
 		got, terr = a.ldapsBind(name, p.PW)
+	case "ldap-starttls":
+		got, terr = a.ldapStartTLSBind(name, p.PW)
 	case "cli":
 		st, out := cli(cfgFile, nil, "authenticate", name, p.PW)
 		got, detail = st == 0, fmt.Sprintf("exit %d: %s", st, strings.TrimSpace(out))
@@ -269,7 +274,7 @@ func TestC04Binary(t *testing.T) {
 			vlib.Class("bb-frontend:" + fe)
 		}
 		allFrontends := func(user, pw, kind, phase string) {
-			for _, fe := range []string{"sasl", "sasl-split", "basic-auth", "api-authenticate", "ldap", "cli", "https-basic-auth", "ldaps"} {
+			for _, fe := range []string{"sasl", "sasl-split", "basic-auth", "api-authenticate", "ldap", "cli", "https-basic-auth", "ldaps", "ldap-starttls"} {
 				judge(-1, bbProbe{User: user, PW: pw, Kind: kind, Frontend: fe, Split: 1}, phase)
 			}
 		}
